@@ -5,6 +5,7 @@ import (
 	"encoding/json"
 	"flag"
 	"fmt"
+	"go/types"
 	"os"
 	"runtime/debug"
 	"sort"
@@ -45,6 +46,7 @@ func main() {
 	dump := flag.String("dump", "", "debug: dump SSA of the named function")
 	replay := flag.String("replay", "", "replay file: re-evaluate the obligation it names")
 	listFuncs := flag.Bool("listfuncs", false, "print the named functions of the analysed package (to regenerate baseline_funcs.txt on the pinned tree)")
+	listFields := flag.Bool("listfields", false, "print the struct types of the analysed package with their fields (to regenerate baseline_fields.txt on the pinned tree)")
 	bce := flag.String("bce", "", "thorough/C08: file with the compiler's -d=ssa/check_bce/debug=1 listing for cross-checking the obligation inventory")
 	flag.Parse()
 
@@ -73,7 +75,18 @@ func main() {
 	if *listFuncs {
 		for _, fn := range w.All {
 			if fn.Parent() == nil {
-				fmt.Println(w.fname(fn))
+				fmt.Printf("%s\t%s\n", w.fname(fn), sigText(fn, w.Main.Pkg))
+			}
+		}
+		return
+	}
+	if *listFields {
+		sc := w.Main.Pkg.Scope()
+		for _, n := range sc.Names() {
+			if tn, ok := sc.Lookup(n).(*types.TypeName); ok {
+				if st, ok := tn.Type().Underlying().(*types.Struct); ok {
+					fmt.Printf("%s\t%s\n", n, structText(st, w.Main.Pkg))
+				}
 			}
 		}
 		return
